@@ -305,6 +305,10 @@ func (ex *Exec) checkPost(st *State, results []Value) {
 	}
 	for i := range ex.con.Ensures {
 		cl := &ex.con.Ensures[i]
+		if cl.Assumed {
+			ex.d.trust("ASSUMED postcondition (not proved): " + ex.sel + " " + cl.Label + ": " + cl.Text)
+			continue
+		}
 		c.clause = cl
 		g := ex.safeFormula(c, cl.Text)
 		lbl := cl.Label
